@@ -51,15 +51,16 @@ REGISTRY = {
     "C07": {"jobs": LEMMAS_BER + ASN1_FUNCS, "native": "native_c07.py",
             "assumptions": ["len(x) < 2^63 for every octet string (CPython sys.maxsize); INTEGER contents of at most 2^40 octets",
                             "inlined without a contract of their own: ASN1Tag.universal_tag, ASN1Reader.__init__/__bool__/read_enumerated, ASN1Writer.__init__/__enter__/push_sequence/push_set (executed symbolically at every call site)"]},
-    "C02": {"jobs": RECEIVE + LEMMAS_FRAMING + FRAME_READERS + [j("asn1:ASN1Reader.read_octet_string")], "native": "native_receive.py", "filter_by_clause": False,
+    "C02": {"jobs": RECEIVE + LEMMAS_FRAMING + FRAME_READERS + [j("asn1:ASN1Reader.read_octet_string")], "native": "native_receive.py",
             "assumptions": ["decoding the content of one envelope is a deterministic function of those octets and the options (dec_content; C19 supports it)",
                             "the 'same state as a single delivery' clause composes the proved facts on paper: receive returns msgs(R ++ data) and keeps residue(R ++ data); "
                             "lemma_chunk gives msgs(A ++ B) == msgs(A) ++ msgs(residue(A) ++ B) and residue(A ++ B) == residue(residue(A) ++ B); messages are processed in list order by the "
                             "deterministic _process_incoming_message contracts, so any partition yields the same fold"]},
-    "C05": {"jobs": RECEIVE + INCOMING, "native": "native_receive.py", "filter_by_clause": False,
+    "C05": {"jobs": RECEIVE + INCOMING, "native": "native_receive.py", "level": "other",
+            "explanation": "Session-level containment proved; decoder exception classes below the envelope are a trusted contract exercised by the bounded sweep.",
             "assumptions": ["exception classes of the content decoders (_unpack_ldap_message_content and below) are assumed to be within {ValueError, NotImplementedError, NotEnougData, RecursionError}: "
                             "trusted contract, exercised by the bounded corruption sweep; TypeError/AttributeError excluded under 'arguments conform to their annotations'"]},
-    "C06": {"jobs": RECEIVE + FRAME_READERS + [LEMMAS_FRAMING[2], LEMMAS_FRAMING[0]], "native": "native_receive.py", "filter_by_clause": False},
+    "C06": {"jobs": RECEIVE + FRAME_READERS + [LEMMAS_FRAMING[2], LEMMAS_FRAMING[0]], "native": "native_receive.py"},
     "C08": {"jobs": SEND_CORE + SERVER_API + CLIENT_API + INCOMING + RECEIVE[:4], "native": "native_session.py"},
     "C09": {"jobs": [j(f"{S}:LDAPClient._send"), inh("_send", "LDAPClient")] + CLIENT_API + [INCOMING[0]], "native": "native_session.py"},
     "C10": {"jobs": SEND_CORE + SERVER_API + CLIENT_API, "native": "native_session.py"},
